@@ -450,6 +450,7 @@ func (l *Local) Allocate(ctx context.Context, cni *daemon.CNI, request ResourceR
 		respCh := make(chan *AllocResp)
 		// assign ip to pod , as we are ready
 		// this must be protected by lock
+		heldV4, heldV6 := heldBy(ipv4, cni.PodID), heldBy(ipv6, cni.PodID)
 		if ipv4 != nil {
 			ipv4.Allocate(cni.PodID)
 		}
@@ -461,7 +462,7 @@ func (l *Local) Allocate(ctx context.Context, cni *daemon.CNI, request ResourceR
 			l.cond.L.Lock()
 			defer l.cond.L.Unlock()
 
-			l.commit(ctx, respCh, ipv4, ipv6, cni.PodID)
+			l.commitHeld(ctx, respCh, ipv4, ipv6, cni.PodID, heldV4, heldV6)
 		}()
 		return respCh, nil
 	}
@@ -633,7 +634,7 @@ func (l *Local) allocWorker(ctx context.Context, cni *daemon.CNI, request *Local
 			}
 		}
 
-		l.commit(ctx, respCh, ipv4, ipv6, cni.PodID)
+		l.commitHeld(ctx, respCh, ipv4, ipv6, cni.PodID, heldBy(ipv4, cni.PodID), heldBy(ipv6, cni.PodID))
 
 		return
 	}
@@ -1047,6 +1048,18 @@ func (l *Local) Status() Status {
 // commit send the allocated ip result to respCh
 // if ctx canceled, the respCh will be closed
 func (l *Local) commit(ctx context.Context, respCh chan *AllocResp, ipv4, ipv6 *IP, podID string) {
+	l.commitHeld(ctx, respCh, ipv4, ipv6, podID, false, false)
+}
+
+// heldBy tells whether the pod already owns the address (a repeated ADD gets it back).
+func heldBy(ip *IP, podID string) bool {
+	return ip != nil && podID != "" && ip.podID == podID
+}
+
+// commitHeld is commit for a request that may be a repeated ADD: an address the pod held
+// before this request (heldV4/heldV6) stays with the pod when the request is cancelled,
+// only what this request took is handed back.
+func (l *Local) commitHeld(ctx context.Context, respCh chan *AllocResp, ipv4, ipv6 *IP, podID string, heldV4, heldV6 bool) {
 	var ip types.IPSet2
 	if ipv4 != nil {
 		ip.IPv4 = ipv4.ip
@@ -1069,10 +1082,10 @@ func (l *Local) commit(ctx context.Context, respCh chan *AllocResp, ipv4, ipv6 *
 	})
 	select {
 	case <-ctx.Done():
-		if ipv4 != nil {
+		if ipv4 != nil && !heldV4 {
 			ipv4.Release(podID)
 		}
-		if ipv6 != nil {
+		if ipv6 != nil && !heldV6 {
 			ipv6.Release(podID)
 		}
 
